@@ -601,6 +601,10 @@ class ModGen:
         self.names = set()
         self.exported = set()
         lref_cands = []
+        if self.big:
+            # several KiB without any repetition: literal runs of maximal length in the compression layer
+            self.emit('data %s u64 %s' % (self.fresh('rnd'), ' '.join(str(rng.getrandbits(64)) for _ in range(rng.randint(300, 900)))))
+            self.emit('data - u8 %s' % ' '.join(str(rng.randint(128, 255)) for _ in range(rng.randint(1100, 2500))))
         for _ in range(n_items):
             k = rng.choice(['import', 'export', 'forward', 'bss', 'data', 'data', 'ref', 'proto', 'func', 'func', 'lref',
                             'string'])
